@@ -31,12 +31,59 @@ func newEpochInput(r *Run, prop string, maxPop, maxEpochs int, tieFreeOnly bool)
 	if !tieFreeOnly && opts.PopSize <= 12 && r.Rng.Intn(3) == 0 {
 		rule = 3 + r.Rng.Intn(2)
 	}
+	if maxPop > 30 && r.Rng.Intn(3) == 0 {
+		// oracle-only runs: a third of them stagnate from the first epoch on, with a short drop-off age, so that
+		// delta coding (and the ageing of the two species it keeps) is exercised
+		rule = 6
+		opts.DropOffAge = 1
+	}
 	// mixed-sign fitness clamps every negative value to the same number: ties everywhere, so in runs that are
 	// compared with the model (maxPop <= 30) only where every sorted slice has at most 12 elements
 	if prop == "C09" && r.Rng.Intn(4) == 0 && (opts.PopSize <= 12 || maxPop > 30) {
 		rule = 5
 	}
 	return &epochInput{Prop: prop, Seed: r.Rng.Int63(), Opts: opts, Start: genomeText(s), Epochs: 2 + r.Rng.Intn(maxEpochs-1), FitRule: rule}
+}
+
+// subnormalOvershoot is the designated demonstration of a recorded finding: four organisms of one species with
+// the finite, non-negative fitness values (8, 4, 4, 4) x 2^-1074.  Their shared values are (2, 1, 1, 1) units, the
+// average 5/4 units rounds to 1 unit (a subnormal quotient has no relative error bound), the expected offspring
+// (2, 1, 1, 1) total 5 and the turnover fails with "progeny size after reproduction cycle dimished, expected: [4],
+// but got: [5]".  The random family (fitness rule 7 with any options) looks for the same overshoot elsewhere.
+func subnormalOvershoot(r *Run, prop string) {
+	for k := 0; k < r.N(4, 40); k++ {
+		opts := baseOptions()
+		if k > 0 {
+			opts = epochOptions(r.Rng, 12)
+		} else {
+			opts.PopSize, opts.CompatThreshold = 4, 6
+		}
+		in := &epochInput{Prop: prop, Seed: 7 + int64(k), Opts: opts, Start: genomeText(startGenomes()[1]), Epochs: 2, FitRule: 7}
+		if prop == "C09" {
+			runPhased(r, in)
+		} else {
+			runHistory(r, in, nil, 0)
+		}
+	}
+}
+
+// fitnessOverflow is the designated demonstration of a recorded finding: four organisms of one young species with
+// the finite, non-negative fitness values (1.7e308, 1, 1, 1) and AgeSignificance 1.1.  The youth boost overflows to
+// +Inf, the population average is +Inf, the expected offspring of organism 0 is Inf/Inf = NaN, int(math.Floor(NaN))
+// is the most negative int on amd64, every quota ends up zero or negative, the fallback finds no species to keep,
+// all species are purged and prepareForReproduction indexes the empty sorted list (panic).  The random family
+// (fitness rule 8, any options) looks for other failures of the same kind.
+func fitnessOverflow(r *Run, prop string) {
+	for k := 0; k < r.N(4, 40); k++ {
+		opts := baseOptions()
+		if k > 0 {
+			opts = epochOptions(r.Rng, 12)
+		} else {
+			opts.PopSize, opts.CompatThreshold, opts.AgeSignificance = 4, 1e9, 1.1
+		}
+		in := &epochInput{Prop: prop, Seed: 11 + int64(k), Opts: opts, Start: genomeText(startGenomes()[1]), Epochs: 2, FitRule: 8}
+		runHistory(r, in, nil, 0)
+	}
 }
 
 func runEpochProp(r *Run, prop string) error {
@@ -74,6 +121,10 @@ func runEpochProp(r *Run, prop string) error {
 		for i := 0; i < r.N(20, 300); i++ {
 			c03ReadPopulation(r)
 		}
+	}
+	if prop == "C02" {
+		subnormalOvershoot(r, prop)
+		fitnessOverflow(r, prop)
 	}
 	if prop == "C02" {
 		// randomly constructed populations (recorded finding: single-point crossover of unrelated genomes)
@@ -131,6 +182,9 @@ func runPhasedProp(r *Run, prop string) error {
 		"non-trivial = >= 2 species at some epoch (C09) / >= 1 species with quota > 5 (C10); distinct by (seed, options)"
 	if prop == "C10" {
 		c10RoundingTie(r)
+	}
+	if prop == "C09" {
+		subnormalOvershoot(r, prop)
 	}
 	// the tie between model and code for this check: whole-epoch correspondence through the public NextEpoch
 	cf := r.NewCaseFile(0, "Res F64 Genome Options GenomeLit EpochCases "+prop+"Cases", "epoch_case")
